@@ -364,7 +364,7 @@ def r07_7(chk):
         n += 1
         reads = [x for x in ast.walk(fn) if isinstance(x, ast.Attribute) and norm(x.value) == "self" and x.attr in DERIVED_DEFN_STATE and isinstance(x.ctx, ast.Load)]
         prim = any(isinstance(x, ast.Attribute) and norm(x.value) == "self" and x.attr == "assignments" for x in ast.walk(fn))
-        chk.decide(not reads, "R07.7", key(m, f"_LeafDefn.{name}", "reads the primary state only"), m.loc(reads[0] if reads else fn), "no read of values / index / uniq" + (" (reads self.assignments)" if prim else ""), f"`{norm(reads[0]) if reads else ''}` reads state that update() derives from the assignments: inside a batched update it is stale, so a later rule of the same batch (hold constant, merge scopes) starts from the value before the batch and discards the earlier rule's value", nontrivial=prim)
+        chk.decide(not reads, "R07.7", key(m, f"_LeafDefn.{name}", "reads the primary state only"), m.loc(reads[0] if reads else fn), "no read of values / index / uniq" + (" (reads self.assignments)" if prim else ""), f"`{norm(reads[0]) if reads else ''}` reads state that update() derives from the assignments: inside a batched update it is stale, so a later rule of the same batch (hold constant, merge scopes) starts from the value before the batch and discards the earlier rule's value")
     upd = ci.methods.get("update")
     ok_upd = isinstance(upd, ast.FunctionDef) and any(isinstance(x, ast.Attribute) and norm(x.value) == "self" and x.attr == "values" and isinstance(x.ctx, ast.Store) for x in ast.walk(upd))
     chk.decide(ok_upd, "R07.7", key(m, "_LeafDefn.update", "derives values"), m.loc(upd) if upd is not None else m.loc(ci.node), "update() is where self.values is derived", "_LeafDefn.update no longer derives self.values: the classification primary/derived of this rule is out of date")
